@@ -31,6 +31,17 @@ class Ctx:
         self.obligations.append({"name": name, "kind": kind, "ok": bool(ok), "detail": str(detail)[:2000]})
         return bool(ok)
 
+    def stage(self, name, fn, *a, **kw):
+        """Run one stage of a property module; a stage that crashes (e.g. a model/implementation tie that cannot even be
+        evaluated on a changed tree) is a broken obligation and the remaining stages still run, so that the oracles get the
+        chance to produce a concrete failing input."""
+        import traceback
+        try:
+            return fn(*a, **kw)
+        except Exception:  # noqa
+            self.oblige(f"stage '{name}' ran to completion", False, traceback.format_exc()[-1500:], "T2")
+            return None
+
     # -- explored cases --
     def case(self, obj, nontrivial=True, feature=None):
         self.evaluations += 1
